@@ -129,7 +129,10 @@ func genC14(cw *caseWriter, seed uint64, tier string) {
 			// (proleptic) days dropped in 1582, the last second of a year west and east of Greenwich, the epoch with a
 			// negative zero offset, quarter-hour and maximal offsets
 			"1900-02-28T23:59:59+01:00", "1900-03-01T00:00:00-01:00", "2000-02-29T23:59:59+13:45", "2100-02-28T12:00:00-09:30", "2100-03-01T00:00:00Z", "0004-02-29T12:00:00+05:45", "1582-10-10T00:00:00+00:30",
-			"2021-12-31T23:59:59-12:00", "2022-01-01T00:00:00+14:00", "1970-01-01T00:00:00-00:00", "2038-01-19T03:14:08Z", "1901-12-13T20:45:51Z", "2021-09-24T21:21:00+23:59", "2021-09-24T21:21:00-23:59", "2106-02-07T06:28:16+08:45"}
+			"2021-12-31T23:59:59-12:00", "2022-01-01T00:00:00+14:00", "1970-01-01T00:00:00-00:00",
+			// the first and the last local days there are, at offsets that put the UTC instant in another year (year -1,
+			// year 10000): the bounds of what can be written are those of the LOCAL date
+			"9999-12-31T23:30:00-05:00", "9999-12-31T23:59:59-23:59", "9999-12-31T12:00:00-12:00", "0000-01-01T00:00:00+23:59", "0000-01-01T00:30:00+05:00", "0000-01-01T00:00:00Z", "0000-12-31T23:59:59+14:00", "0001-01-01T00:00:00+23:59", "2038-01-19T03:14:08Z", "1901-12-13T20:45:51Z", "2021-09-24T21:21:00+23:59", "2021-09-24T21:21:00-23:59", "2106-02-07T06:28:16+08:45"}
 		ins := []colDesc{{name: "c", format: "datetime", ty: "none"}, {name: "c", format: "datetime", ty: "time"}, {name: "c", format: "auto", ty: "time"}, {name: "c", format: "string", ty: "time"}}
 		outs := []colDesc{{name: "c", format: "datetime", ty: "none"}, {name: "c", format: "timestamp", ty: "none"}, {name: "c", format: "string", ty: "time"}, {name: "c", format: "datetime", ty: "time"}, {name: "c", format: "timestamp", ty: "i64"},
 			// raw types that cannot hold a time.Time (the cast fails and the value is kept as it is): the offset and the
